@@ -2,7 +2,7 @@
     duplication and batching.  Statements only. *)
 From Coq Require Import List NArith Permutation.
 From MOC.Base Require Import RangeSet.
-From MOC.Model Require Import Qty Ops1D Build.
+From MOC.Model Require Import Qty Ops1D Build BuilderSM.
 Import ListNotations.
 Open Scope N_scope.
 
@@ -60,6 +60,29 @@ Example C06_nonvacuous :
   snd (kway OXor Time 16 [(13, [(0, 3)]); (13, [(1, 5)]); (13, [(2, 7)])]) = [(0, 1); (2, 3); (5, 7)].
 Proof. repeat split; vm_compute; reflexivity. Qed.
 
+
+(** the buffering state machine of FixedDepthMocBuilder (Model/BuilderSM.v: skip of a repeated
+    last cell, sorted-flag tracking, drain when the buffer reaches its capacity, sort unless
+    known sorted, run-length fusion of consecutive cell numbers, union with the MOC of earlier
+    flushes) equals the specification for EVERY sequence of cells - any order, any repetition -
+    and EVERY capacity, hence wherever the intermediate flushes fall *)
+Theorem C06_fixed_depth_builder_state_machine : forall q w d cap cells,
+  build (shift q w d) cap cells = build_cells q w d cells.
+Proof. exact build_eq_spec. Qed.
+
+(** the run-length fusion of a sorted buffer (repetitions allowed) yields canonical ranges of
+    cell numbers covering exactly the buffered cells *)
+Theorem C06_buffer_fusion_exact : forall l, nd 0 l ->
+  Canon (cells_to_ranges l) /\ forall x, cov (cells_to_ranges l) x <-> In x l.
+Proof. exact cells_to_ranges_spec. Qed.
+
+Example C06_nonvacuous_builder :
+  build (shift Hpx 16 1) 2 [7; 3; 4; 3; 3; 8; 4] = build_cells Hpx 16 1 [7; 3; 4; 3; 3; 8; 4] /\
+  build (shift Hpx 16 1) 2 [7; 3; 4; 3; 3; 8; 4] = [(768, 1280); (1792, 2304)] /\
+  build (shift Hpx 16 1) 100 [7; 3; 4; 3; 3; 8; 4] = [(768, 1280); (1792, 2304)] /\
+  cells_to_ranges [3; 3; 4; 7; 8; 8; 9] = [(3, 5); (7, 10)].
+Proof. repeat split; vm_compute; reflexivity. Qed.
+
 Print Assumptions C06_build_covers_degraded_union.
 Print Assumptions C06_build_is_valid.
 Print Assumptions C06_build_depends_on_set_only.
@@ -71,3 +94,5 @@ Print Assumptions C06_kway_valid.
 Print Assumptions C06_kway_or.
 Print Assumptions C06_kway_and.
 Print Assumptions C06_kway_xor.
+Print Assumptions C06_fixed_depth_builder_state_machine.
+Print Assumptions C06_buffer_fusion_exact.
